@@ -178,6 +178,7 @@ class Loader:
 
 
 _REAL = [None]
+CURRENT = [None]      # the Loader whose private package the symbolic world uses
 
 
 def real_lentil():
